@@ -539,6 +539,16 @@ func run(c *wk.Case) {
 			src, srcName = handCFF[i], fmt.Sprintf("hand-made CFF with subroutines #%d", i)
 			c.Count("handmade_cff_cases", 1)
 		}
+		if (dec == "gtab.Read(GSUB)" || dec == "gtab.Read(GPOS)") && t.Chance(1, 6) {
+			// as another font tool would write it: extension lookups in a
+			// small table, sometimes with a shared offset
+			var note string
+			src, note = simgen.RewrapGtab(t, src, dec == "gtab.Read(GPOS)", t.Chance(1, 2))
+			if note != "" {
+				c.Count("tables_rewritten_with_extension_lookups", 1)
+				c.Logf("%s", note)
+			}
+		}
 		if dec == "cff.Read" && len(a.cffRegions) > 0 && len(src) > 0 && &src[0] == &a.tables[tag][0] && t.Chance(1, 3) {
 			// aim at a small structure located inside the table (FDSelect)
 			r := a.cffRegions[t.Draw(len(a.cffRegions))]
